@@ -77,6 +77,11 @@ def make (spec0):
     kind  = str (rng.choice (['far', 'near', 'near-grid'] if route == 'api' else ['far', 'near']))
     if kind == 'far':
         ax = [draw_axis (rng, 100), draw_axis (rng, 100 if route == 'api' else 40)]
+        # a step of zero with several rows (the same direction printed several times) is a valid request for angles
+        rz = np.random.default_rng ([spec0 ['seed'], 162, spec0 ['i']])
+        if rz.random () < 0.15:
+            k = int (rz.integers (0, 2))
+            ax [k] = (ax [k][0], 0.0, max (2, min (ax [k][2], 7)))
     elif kind == 'near':
         ax = [draw_axis (rng, 4) for k in range (3)]
         while ax [0][2] * ax [1][2] * ax [2][2] > 40:
